@@ -229,6 +229,8 @@ def _lib_setup(n, alias=False):
                 "identify": SStub(lambda it2, a, k, _b=idf: SBool(_b), f"hasher{j}.identify"),
                 "verify": SStub(lambda it2, a, k, _b=ver: SBool(_b), f"hasher{j}.verify"),
                 "hash": SStub(lambda it2, a, k, _j=j: SStr(z3.String(f"hasher{_j}.hash(secret)"), "str"), f"hasher{j}.hash"),
+                # the hasher's own update check (format AND cost) is a free boolean: the context's answer must not depend on it
+                "needs_update": SStub(lambda it2, a, k, _j=j: SBool(z3.Bool(f"hasher{_j}.needs_update(hash)")), f"hasher{j}.needs_update"),
             }))
         self = args["self"]
         self.fields["_schemes"] = SList(hs)
